@@ -658,12 +658,8 @@ pub mod libc_shim {
         match k::current() {
             None => ::libc::close(fd),
             Some(ctx) => {
-                let known = ctx.sim.lock().procs[ctx.proc].fds.contains_key(&fd);
-                if !known {
-                    // not one of ours: EBADF like the kernel would say
-                    set_errno(::libc::EBADF);
-                    return -1;
-                }
+                // (a number that is not open goes through the simulated kernel
+                //  too: it answers EBADF, and the call shows in the trace)
                 match ctx
                     .sim
                     .call(&ctx, K::Close, Req::fd(fd), true, |st, p, r| k::k_close(st, p, r))
